@@ -134,8 +134,10 @@ def _digest(p):
         return f'unreadable:{type(exc).__name__}'
 
 
-def list_runs(wdir):
-    """Run directories found under ~/cylc-run/<name> (or <name> itself)."""
+def list_runs(wdir, skip=()):
+    """Run directories found under ~/cylc-run/<name> (or <name> itself).
+
+    skip: entry names that are other (nested) workflows, not runs."""
     runs = {}
     if not os.path.isdir(wdir):
         return runs
@@ -143,7 +145,7 @@ def list_runs(wdir):
         runs['.'] = wdir
     for n in sorted(os.listdir(wdir)):
         p = os.path.join(wdir, n)
-        if n in ('runN', '_cylc-install'):
+        if n in ('runN', '_cylc-install') or n in skip:
             continue
         if os.path.isdir(p) and os.path.exists(
                 os.path.join(p, 'flow.cylc')):
@@ -303,6 +305,11 @@ def run_case(ctx, i, rng):
     def wdir(name):
         return os.path.join(cylc_run, name)
 
+    def runs_of(mm):
+        skip = {n[len(mm.name) + 1:].split('/')[0] for n in names
+                if n.startswith(mm.name + '/')}
+        return list_runs(wdir(mm.name), skip)
+
     def fail(key, what, **detail):
         ctx.violation(key, what, {
             'history': history, 'names': names, 'symlink_dirs': sym_text,
@@ -352,7 +359,7 @@ def run_case(ctx, i, rng):
 
     def sync_new_runs(m, before_runs, step, op):
         """Register run dirs that appeared; return list of new dirnames."""
-        after = list_runs(wdir(m.name))
+        after = runs_of(m)
         new = [d for d in after if d not in before_runs]
         for d in new:
             mm = RUN_RE.match(d)
@@ -478,7 +485,7 @@ def run_case(ctx, i, rng):
                     'run_name': run_name, 'no_run_name': no_run_name,
                     'source': src_tag}
             pre = snapshot_all()
-            before_runs = {mm.name: list_runs(wdir(mm.name))
+            before_runs = {mm.name: runs_of(mm)
                            for mm in models.values()}
             target_exists = False
             if run_name and os.path.lexists(
@@ -572,7 +579,7 @@ def run_case(ctx, i, rng):
                 continue
             desc = {'step': step, 'op': 'reinstall', 'id': rid}
             pre = snapshot_all()
-            before_runs = {mm.name: list_runs(wdir(mm.name))
+            before_runs = {mm.name: runs_of(mm)
                            for mm in models.values()}
             try:
                 reinstall_workflow(
@@ -611,7 +618,7 @@ def run_case(ctx, i, rng):
                               'etc', 'log/install', '**/tool'])]
         desc = {'step': step, 'op': 'clean', 'id': cid, 'rm': rm}
         pre = snapshot_all()
-        before_runs = {mm.name: list_runs(wdir(mm.name))
+        before_runs = {mm.name: runs_of(mm)
                        for mm in models.values()}
         opts = CleanOptions(local_only=True, rm_dirs=rm or [])
         try:
@@ -626,7 +633,7 @@ def run_case(ctx, i, rng):
             ctx.count('clean_via_runN')
         removed_any = False
         for mm in models.values():
-            after = list_runs(wdir(mm.name))
+            after = runs_of(mm)
             gone = [x for x in mm.runs if x not in after]
             for x in gone:
                 removed_any = True
